@@ -153,9 +153,14 @@ class World(object):
             h.node = None
             self.net.kernel_close_host(i)
             self.probe('start_exception_' + type(e).__name__)
+            if h.doomed:
+                # it was killed while starting (the exception is the doomed process' own business)
+                return 'exc:' + type(e).__name__
             if self.oracle is not None and hasattr(self.oracle, 'on_start_failed'):
                 self.oracle.on_start_failed(h, e, _origin(e))
             return 'exc:' + type(e).__name__
+        if h.doomed:
+            return 'started'
         if self.oracle is not None:
             self.oracle.on_start(h)
         return 'started'
@@ -287,8 +292,21 @@ class World(object):
                 h.fs.torn_frac = ev[5] if len(ev) > 5 else 0.5
                 h.fs.image = None
         elif kind == 'start':
+            if len(ev) > 3 and self.hosts[ev[2]].node is None:
+                # the process dies at its k-th storage op from now - possibly while it is still starting (creating its
+                # journal file, loading, repairing)
+                h = self.hosts[ev[2]]
+                h.fs.kill_at = h.fs.ops + ev[3]
+                h.fs.kill_mode = ev[4]
+                h.fs.torn_frac = ev[5] if len(ev) > 5 else 0.5
+                h.fs.image = None
             out = self.start(ev[2])
             touched = ev[2]
+            if self.hosts[ev[2]].doomed:
+                self._finish_kill(self.hosts[ev[2]])
+                self.probe('killed_while_starting')
+                out = 'died'
+                touched = None
             if out == 'started':
                 self.fault('restart') if self.hosts[ev[2]].inc > 1 else None
         elif kind == 'compact':
